@@ -214,6 +214,9 @@ def install(mod):
     g["max"] = shims.max_shim
     g["sum"] = shims.sum_shim
     g["type"] = shims.type_shim
+    g["bytes"] = shims.BytesShim
+    g["bytearray"] = shims.ByteArrayShim
+    g["memoryview"] = shims.MemoryViewShim
     if mod.__name__ == "websocket._utils" and "_UTF8D" in g:
         g["_UTF8D"] = core.SymTable(g["_UTF8D"])
 
@@ -224,6 +227,11 @@ SHIM_LIST = [
     "chr(x).encode('latin-1') -> one symbolic byte with range check",
     "int(), int.from_bytes / int.to_bytes -> exact-width bit-vectors, byte-decomposed",
     "isinstance/type/len/min/max/sum -> proxy-aware versions",
+    "bytes(...) / bytearray(...) / memoryview(...) -> stand-ins: bytearray() is a mutable buffer that can hold symbolic elements (extend, +=, slice "
+    "assignment / deletion, append, pop ...), memoryview of a symbolic buffer is a read-only snapshot with tobytes()/slicing/release(), bytes(x) of "
+    "a proxy is a proxy; isinstance/type answer as for the real types",
+    "codecs.utf_8_decode (incl. final=False) / decode / ascii_decode / latin_1_decode and str(bytes, encoding) on symbolic bytes -> the engine's "
+    "decoder (reference DFA)",
     "_utils._UTF8D -> same numbers, symbolic index through an ITE mux tree",
     "bytes.join / str.join on literals and f-strings -> proxy-aware concatenation (AST rewrite)",
     "every except-handler first re-raises engine control exceptions (AST rewrite)",
